@@ -194,6 +194,7 @@ TCall ==
     /\ LET r == Log[l] IN
        /\ r.e = "call" /\ ~Has(r, "probe")
        /\ SnapsThere(r)
+       /\ (Has(r, "ac") => r.ac)            \* the call returned with no transaction left open on its connection (C14)
        /\ IF Faulted(r)
           THEN \/ /\ r.out = "throw" /\ r.std /\ r.dsame /\ Unchanged(r)        \* C14
                   /\ ts' = ts /\ dead' = dead /\ pinfo' = pinfo
